@@ -264,7 +264,9 @@ def compare(base, res, m, attempt, flag_on):
     text, btext = res[rkey], base[bkey]
     if not isinstance(text, str):
         return 'shape', '%s is %r' % (rkey, text)
-    reduced = m < 1 and any_positive
+    # "exactly when some grade was reduced": judged by what happened to the grades (a schedule value such as
+    # 0.9999999999999999 equals 1 at the documented 4-decimal resolution and then reduces nothing)
+    reduced = any(r['grade_decimal'] < b['grade_decimal'] for b, r in zip(be, rentries))
     if reduced and flag_on:
         mt = NOTE_RE.search(text)
         if mt is None:
@@ -737,7 +739,9 @@ def problems(draw):
 def table_values():
     grid = st.integers(0, 10000).map(lambda k: k / 10000.0)
     off = st.integers(0, 9998).map(lambda k: k / 10000.0 + 0.00003)
-    nice = st.sampled_from([0.0, 1.0, 0.5, 0.3333, 0.25, 0.9999, 0.0001, 0.2, 0.75, 0.125])
+    nice = st.sampled_from([0.0, 1.0, 0.5, 0.3333, 0.25, 0.9999, 0.0001, 0.2, 0.75, 0.125,
+                            # equal to 1 at 4 decimals without being 1 (float noise of an author's formula, slow decay)
+                            0.9999999999999999, 0.99996, 0.99995, 1 - 1e-9, 0.999949])
     ints = st.sampled_from([0, 1])
     return st.lists(st.one_of(ints, nice, nice, grid, off), min_size=1, max_size=6)
 
